@@ -317,7 +317,7 @@ func ReactScenarios() []History {
 	// a second service whose name extends the first; the listings are observed at 99, 100, 101 and 104 bindings
 	ops = []Ev{{Name: "Define", Signer: "o1", Svc: "s"}, {Name: "Define", Signer: "o1", Svc: "s1"}}
 	for i := 0; i < 104; i++ {
-		owner := []string{"o1", "o2", "c1"}[i%3]
+		owner := "o1" // (one owner of all of them: its fleet is larger than a page as well)
 		ops = append(ops, Ev{Name: "Bind", Signer: owner, Svc: "s", Prov: fmt.Sprintf("q%03d", i), Deposit: 10, DShape: "ok", Pr: pr(1), Qos: 1})
 		if i == 2 {
 			ops = append(ops, Ev{Name: "Bind", Signer: "o1", Svc: "s1", Prov: "q000", Deposit: 10, DShape: "ok", Pr: pr(1), Qos: 1})
@@ -326,7 +326,20 @@ func ReactScenarios() []History {
 			ops = append(ops, Ev{Name: "Obs"})
 		}
 	}
-	add("a-popular-service", smallParams(), map[string]int64{"o1": 1000, "o2": 1000, "c1": 1000}, ops...)
+	// forty of them serve one call, and the owner withdraws everything at once
+	var fleet []string
+	for i := 0; i < 104; i += 3 {
+		fleet = append(fleet, fmt.Sprintf("q%03d", i))
+	}
+	for i := 1; i < 16; i += 3 {
+		fleet = append(fleet, fmt.Sprintf("q%03d", i))
+	}
+	ops = append(ops, Ev{Name: "Call", Signer: "c1", Svc: "s", Provs: fleet, Cap: 10, Timeout: 2}, eb(1))
+	for i, q := range fleet {
+		ops = append(ops, Ev{Name: "Respond", Signer: q, Rid: rid(1, 1, 1, int64(i)), Kind: "valid"})
+	}
+	ops = append(ops, Ev{Name: "Obs"}, Ev{Name: "Withdraw", Signer: "o1"}, Ev{Name: "Obs"}, eb(1), eb(1))
+	add("a-popular-service", smallParams(), map[string]int64{"o1": 2000, "o2": 1000, "c1": 1000}, ops...)
 
 	// a call whose timeout is negative: stateless validation must refuse it (were it accepted, its batch
 	// would expire in a block that has ended)
